@@ -208,6 +208,7 @@ pub fn run_text(text: &str, opts: RunOpts) -> ImplOutcome {
 
 fn finish(r: std::thread::Result<Result<Object, Error>>, opts: RunOpts) -> ImplOutcome {
     let output = verif::capture_take();
+    let mut dead_result = false;
     let end = match r {
         Err(p) => ImplEnd::Panic(format!("{} [{}]", panic_message(p), last_panic_loc())),
         Ok(Err(e)) => classify_err(&e),
@@ -218,6 +219,11 @@ fn finish(r: std::thread::Result<Result<Object, Error>>, opts: RunOpts) -> ImplO
                 let mut boxes = Vec::new();
                 reachable_boxes(obj, &mut boxes);
                 for b in boxes {
+                    if !verif::is_alive(b) {
+                        // the interpreter handed back something it had already released
+                        dead_result = true;
+                        continue;
+                    }
                     b.free();
                 }
             }
@@ -229,6 +235,9 @@ fn finish(r: std::thread::Result<Result<Object, Error>>, opts: RunOpts) -> ImplO
         .map(|e| format!("{}#{}", e.kind, e.serial))
         .collect();
     heap.dedup();
+    if dead_result {
+        heap.push("dead-result".to_string());
+    }
     let leaked = if opts.ledger {
         // after a panic the unwinding skipped nothing (Drop runs), so the ledger is still meaningful
         verif::ledger_alive().len()
